@@ -304,7 +304,11 @@ func c06DqSimple(s string) string {
 // dq with "real" escapes: returns source and whether an escape other than \" \\ was used
 func c06DqEscaped(r *rand.Rand, s string) (string, bool) {
 	var b strings.Builder
-	used := false
+	used := false // an escape that HIDES its byte(s) was written (class C06-dq-escape: literal reading only)
+	hide := func(forms ...string) {
+		b.WriteString(pick(r, forms))
+		used = true
+	}
 	b.WriteByte('"')
 	for _, c := range s {
 		switch {
@@ -312,28 +316,46 @@ func c06DqEscaped(r *rand.Rand, s string) (string, bool) {
 			b.WriteString(`\"`)
 		case c == '\\':
 			b.WriteString(`\\`)
+		case c == '\'' && r.Intn(4) == 0:
+			b.WriteString(`\'`) // self-escape accepted by yaml.v3 (not `\/`: "found unknown escape character"): the byte stays in the source
 		case c == '\t':
-			b.WriteString(`\t`)
-			used = true
+			hide(`\t`, `\t`, `\x09`, "\\\t", `\u0009`)
 		case c == '\n':
-			b.WriteString(`\n`)
-			used = true
+			hide(`\n`, `\n`, `\x0a`, `\u000A`)
 		case c == 1:
-			b.WriteString(`\x01`)
-			used = true
+			hide(`\x01`, `\u0001`, `\U00000001`)
+		case c == 0x1b:
+			hide(`\e`, `\x1b`)
+		case c == 0x85:
+			hide(`\N`, `\x85`, `\u0085`)
+		case c == 0xa0:
+			hide(`\_`, `\u00a0`)
 		case c == 0xe9:
-			if r.Intn(2) == 0 {
+			if r.Intn(3) == 0 {
 				b.WriteString(`é`)
 			} else {
-				b.WriteString(`\xe9`)
+				hide(`\xe9`, `\u00e9`, `\u00E9`, `\U000000e9`)
 			}
-			used = true
+		case c == 0x2192:
+			if r.Intn(2) == 0 {
+				b.WriteRune(c)
+			} else {
+				hide(`\u2192`, `\U00002192`)
+			}
+		case c == 0x1F600:
+			if r.Intn(2) == 0 {
+				b.WriteRune(c)
+			} else {
+				hide(`\U0001F600`, `\U0001f600`)
+			}
 		case c == ' ' && r.Intn(12) == 0:
-			b.WriteString(`\x20`)
-			used = true
+			if r.Intn(2) == 0 {
+				b.WriteString(`\ `) // self-escape
+			} else {
+				hide(`\x20`, `\u0020`)
+			}
 		case c == 'a' && r.Intn(10) == 0:
-			b.WriteString(`\x61`)
-			used = true
+			hide(`\x61`, `\u0061`)
 		default:
 			b.WriteRune(c)
 		}
@@ -341,10 +363,9 @@ func c06DqEscaped(r *rand.Rand, s string) (string, bool) {
 	b.WriteByte('"')
 	return b.String(), used
 }
-
 func c06Specials(r *rand.Rand, s string) string {
 	// sprinkle characters that need escapes in a double-quoted scalar
-	ins := []string{"\t", "\n", "é", "\x01"}
+	ins := []string{"\t", "\n", "é", "\x01", "\t", "\n", "é", "\x1b", "\u0085", "\u00a0", "→", "😀"}
 	n := 1 + r.Intn(2)
 	for i := 0; i < n; i++ {
 		pos := r.Intn(len(s) + 1)
@@ -501,6 +522,9 @@ func (p *c06Printer) emitScalar(path string, k c06Kind, keyIndent0 int, flow, al
 		if k == kExpr || k == kMetric || k == kIdent || k == kDuration {
 			// keep these parseable: only escapes that do not change the value class
 			v = strings.ReplaceAll(strings.ReplaceAll(v, "\t", " "), "é", "a")
+			for _, x := range []string{"\x1b", "\u0085", "\u00a0", "→", "😀"} {
+				v = strings.ReplaceAll(v, x, " ")
+			}
 			if k != kExpr {
 				v = strings.ReplaceAll(strings.ReplaceAll(v, "\n", ""), "\x01", "")
 			}
